@@ -1,6 +1,7 @@
 import Pyx12Verif.Props.Doc
 import Pyx12Verif.Props.DocAccept
 import Pyx12Verif.Props.DocDelim
+import Pyx12Verif.Props.DocExample3
 #print axioms Pyx12Verif.Doc.doc_total
 #print axioms Pyx12Verif.Doc.doc_outcomes
 #print axioms Pyx12Verif.Doc.elemReports_codes
@@ -10,3 +11,4 @@ import Pyx12Verif.Props.DocDelim
 #print axioms Pyx12Verif.Doc.doc_accepts_generated_text
 #print axioms Pyx12Verif.Doc.validateRead_congr
 #print axioms Pyx12Verif.Doc.doc_delimiter_independent_partial
+#print axioms Pyx12Verif.Doc.Ex.good_accepted
